@@ -485,7 +485,8 @@ func init() {
 			}
 		}
 		us = append(us, cryptoConcurrentUnits("concurrent")...)
-		us = append(us, zeroRuleUnit(false), cryptoManyKeysUnit(), coldUnit("security", "cipher1", "cipher2", "cipher3"))
+		us = append(us, zeroRuleUnit(false), cryptoManyKeysUnit())
+		us = append(us, coldUnits(tier, "security", "cipher1", "cipher2", "cipher3")...)
 		return us
 	}
 	core.Register(p)
@@ -727,7 +728,8 @@ func init() {
 			}
 		}
 		us = append(us, cryptoConcurrentUnits("concurrent")...)
-		us = append(us, zeroRuleUnit(true), cryptoManyKeysUnit(), coldUnit("security", "mac1", "mac2", "mac3", "mac0"))
+		us = append(us, zeroRuleUnit(true), cryptoManyKeysUnit())
+		us = append(us, coldUnits(tier, "security", "mac1", "mac2", "mac3", "mac0")...)
 		return us
 	}
 	core.Register(p)
@@ -766,15 +768,29 @@ func guarded(in []byte) (inner []byte, intact func() bool) {
 // withVerboseLogging runs fn with the library logger at Trace level (output
 // discarded), then restores the level. The level is an exported knob of the
 // library (logger.SetLogLevel); what the functions compute must not depend on it.
-func init() { core.VerboseHook = withVerboseLogging }
+func init() { core.VerboseHook = withLogLevel }
 
-func withVerboseLogging(fn func()) {
+// withLogLevel runs fn with the library logger at the given logrus level (output discarded).
+func withLogLevel(level int, fn func()) {
 	lg := logger.GetLogger()
 	old := lg.GetLevel()
 	lg.SetOutput(io.Discard)
-	lg.SetLevel(6) // logrus.TraceLevel
+	lv := old // a value of the logger's own level type, counted up to the wanted level
+	lv = 0
+	for i := 0; i < level; i++ {
+		lv++
+	}
+	lg.SetLevel(lv)
 	defer lg.SetLevel(old)
 	fn()
+}
+
+var verboseFlip int
+
+// withVerboseLogging alternates between Trace and Debug level from call to call.
+func withVerboseLogging(fn func()) {
+	verboseFlip++
+	withLogLevel(6-verboseFlip%2, fn)
 }
 
 // oracle "laws": I=[alg, count, bearer, dir, (tight)]  B=[key, payload, other-payload-of-same-length]
@@ -1067,7 +1083,7 @@ func init() {
 		}
 		// laws under concurrency: 8 goroutines ciphering under ONE key (uplink and downlink of
 		// one context) or two, each result compared with the reference
-		us = append(us, coldUnit("security", "cipher1", "mac2", "cipher3", "mac1", "cipher2", "mac3", "mac0"))
+		us = append(us, coldUnits(tier, "security", "cipher1", "mac2", "cipher3", "mac1", "cipher2", "mac3", "mac0")...)
 		us = append(us, core.Unit{Name: "concurrent-same-key", Weight: 40, Run: func(c *core.Ctx) {
 			for alg := 1; alg <= 3; alg++ {
 				for _, nk := range []int64{1, 2} {
